@@ -26,6 +26,7 @@ class Pruned(BaseException):
   """raised by hdecide() at harness level only: the path belongs to another shard of the job"""
 
 
+TRACE_SITES = bool(os.environ.get('VERIF_TRACE_SITES'))
 MAX_DECISIONS = int(os.environ.get('VERIF_MAX_DECISIONS', '2000'))
 QUERY_TIMEOUT_MS = int(os.environ.get('VERIF_QUERY_TIMEOUT_MS', '20000'))
 
@@ -84,7 +85,7 @@ class Engine(object):
     self._snap = (self.stats['checks'], self.stats['checks_trivial'], self.stats['checks_unsat'])
 
   def add(self, *cs):
-    if self.mode != 'sym':
+    if self.mode != 'sym' or self.cleanup:
       return
     if self._already_asserted():
       return
@@ -104,6 +105,10 @@ class Engine(object):
     return False
 
   def fresh_name(self, base):
+    if self.cleanup:
+      # code of an earlier path still running while its greenlets are killed: its names must not shift this path's
+      n = self.__dict__.setdefault('_ncleanup', [0]); n[0] += 1
+      return '%s!cleanup%d' % (base, n[0])
     n = self.nfresh.get(base, 0); self.nfresh[base] = n + 1
     return base if n == 0 and not base.endswith('!') else '%s!%d' % (base, n)
 
@@ -148,6 +153,14 @@ class Engine(object):
     if i >= MAX_DECISIONS:
       self.inconclusive.append('decision limit %d reached' % MAX_DECISIONS)
       raise PathLimit()
+    if TRACE_SITES:
+      import traceback
+      site = ' < '.join('%s:%d' % (os.path.basename(f.filename), f.lineno) for f in reversed(traceback.extract_stack(limit=14)[:-2]) if '/symex/' not in f.filename)
+      sites = self.__dict__.setdefault('_sites', {})
+      if i < self.keep and not self.spine_conds[i].eq(cond):
+        print('SITE-MISMATCH decision %d\n  was: %s\n  now: %s' % (i, sites.get(i), site), flush=True)
+      sites[i] = site
+      if os.environ.get('VERIF_TRACE_SITES') == '2': print('DEC', i, 'replay' if i < len(self.prefix) else 'new', site[:60], cond.sexpr()[:90].replace('\n', ' '), flush=True)
     if i < len(self.prefix):
       b = self.prefix[i]
       if i < self.keep:
